@@ -29,6 +29,9 @@ type EScn struct {
 	Extra  string `json:"extra"` // "", "dup:<k>", "late:<k>" (k = index into Ans)
 	K      int    `json:"k"`
 	Bound  int    `json:"bound"`
+	// OffMs (Extra "at-deadline", parallel engine): the answer of TTL index K arrives this long after the run's overall
+	// deadline - inside the receive poll that straddles it, if that poll was entered in time
+	OffMs int `json:"off_ms,omitempty"`
 }
 
 type resp struct {
@@ -38,10 +41,12 @@ type resp struct {
 }
 
 type sdriver struct {
-	sc   *EScn
-	pend []resp
-	sent []uint8
-	par  bool
+	sc     *EScn
+	pend   []resp
+	sent   []uint8
+	par    bool
+	t0     int64
+	handed []resp // what ReceiveProbe handed to the engine
 }
 
 func (d *sdriver) GetDriverInfo() common.TracerouteDriverInfo {
@@ -60,8 +65,15 @@ func (d *sdriver) SendProbe(ttl uint8) error {
 	k := int(ttl) - d.sc.First
 	a := d.sc.Ans[k]
 	now := vsched.Now()
+	if len(d.sent) == 1 {
+		d.t0 = now
+	}
 	if a != 0 {
 		lat := int64(2+k%3) * 1e6
+		if d.sc.Extra == "at-deadline" && d.sc.K == k {
+			budget := int64(eTimeout) + int64(eDelay)*int64(d.sc.Last-d.sc.First+1)
+			lat = d.t0 + budget + int64(d.sc.OffMs)*1e6 - now
+		}
 		if d.sc.Extra == "late" && d.sc.K == k {
 			lat = int64(eDelay) + 3e6 // arrives while the next TTL is being waited for (but inside the overall budget)
 			if !d.par {
@@ -123,6 +135,7 @@ func (d *sdriver) ReceiveProbe(to time.Duration) (*common.ProbeResponse, error) 
 	}
 	r := d.pend[best]
 	d.pend = append(d.pend[:best], d.pend[best+1:]...)
+	d.handed = append(d.handed, r)
 	return &common.ProbeResponse{TTL: r.ttl, IP: netip.AddrFrom4([4]byte{192, 0, 2, r.ttl}), RTT: time.Millisecond, IsDest: r.dst}, nil
 }
 
@@ -161,6 +174,16 @@ func checkE(sc *EScn, x *vsched.Exec, res []*common.ProbeResponse, err error, d 
 		if a == 2 || thenDest {
 			lowestDest = sc.First + k
 			break
+		}
+	}
+	if sc.Extra == "at-deadline" {
+		// the answer of TTL index K arrives after the deadline: it counts if (and only if) the engine was handed it - by the
+		// poll it had entered before the deadline; every destination answer the engine was handed ends the list
+		lowestDest = -1
+		for _, h := range d.handed {
+			if h.dst && (lowestDest < 0 || int(h.ttl) < lowestDest) {
+				lowestDest = int(h.ttl)
+			}
 		}
 	}
 	// the serial engine stops probing at the first destination answer it sees, so TTLs beyond were never sent;
@@ -289,6 +312,11 @@ func eItems(tier string) []EScn {
 					}
 					if ans[k] == 2 && sp.engine == "parallel" {
 						out = append(out, EScn{Engine: sp.engine, First: sp.first, Last: sp.last, Ans: ans, Extra: "then-router", K: k, Bound: bound})
+					}
+					if ans[k] == 2 && sp.engine == "parallel" && n <= 3 {
+						for _, off := range []int{1, 5, 9} {
+							out = append(out, EScn{Engine: sp.engine, First: sp.first, Last: sp.last, Ans: ans, Extra: "at-deadline", K: k, OffMs: off, Bound: bound})
+						}
 					}
 				}
 			}
